@@ -57,6 +57,8 @@ type Control struct {
 	// OnDoneWhileParked is called when a request returns while one of its goroutines is parked at a gate
 	// (e.g. the response is sent while the store of its record is still pending).
 	OnDoneWhileParked func(rid, site string)
+	// CloseFn closes the slashing database (token site "close": shutdown begins while requests are in flight).
+	CloseFn func()
 	// StartFn launches a request that the schedule has not started yet.
 	StartFn func(rid string)
 	// Blocked records "rid blocked on lock held by rid" observations.
@@ -366,9 +368,30 @@ func (c *Control) RunSchedule(tokens []Token) SchedResult {
 			c.mu.Unlock()
 			continue
 		}
-		hold := ""
+		if t.Site == "close" {
+			if c.CloseFn != nil {
+				c.CloseFn()
+			}
+			// after the close every parked request is let go; a request that then neither finishes nor parks within
+			// three seconds is reported as hung (the write batch of the pinned badger version never returns on a closed store)
+			c.mu.Lock()
+			for r := range c.reqs {
+				c.releaseLocked(r)
+			}
+			c.mu.Unlock()
+			if !c.waitStable(3 * time.Second) {
+				res.Stuck = true
+				res.Deviations = append(res.Deviations, "hung after close")
+				return res
+			}
+			continue
+		}
+		hold, until := "", ""
 		if len(t.Site) > 5 && t.Site[:5] == "hold:" {
 			hold = t.Site[5:]
+		}
+		if len(t.Site) > 6 && t.Site[:6] == "until:" {
+			until = t.Site[6:] // advance until PARKED at the gate (not released)
 		}
 		// Advance t.Rid until it has passed gate (t.Site, t.Key); site "done" = until it has finished;
 		// "hold:<gate>" = until it is parked at <gate>, then watch for a while whether the request answers
@@ -395,6 +418,10 @@ func (c *Control) RunSchedule(tokens []Token) SchedResult {
 				break
 			}
 			hit := s.site == t.Site && (t.Key == "" || t.Key == s.key)
+			if until != "" && s.site == until {
+				c.mu.Unlock()
+				break
+			}
 			if hold != "" && s.site == hold {
 				c.mu.Unlock()
 				for w := 0; w < 30; w++ {
